@@ -246,7 +246,10 @@ const CYCLIC: &[(&str, &str)] = &[
     ("self-vector", "(define cy (vector 1 2)) (vector-set! cy 0 cy)"),
     ("vector-in-list-cycle", "(define cy (list (vector 1))) (vector-set! (car cy) 0 cy)"),
 ];
-const CYCLIC_USES: &[&str] = &["(list? cy)", "(length cy)", "(equal? cy cy)", "(equal? cy (list 1 2 3))", "(display cy)", "(write cy)", "cy", "(begin cy 'kept)", "(vector? cy)", "(pair? cy)"];
+const CYCLIC_USES: &[&str] = &["(list? cy)", "(length cy)", "(equal? cy cy)", "(equal? cy (list 1 2 3))", "(display cy)", "(write cy)", "cy", "(begin cy 'kept)", "(vector? cy)", "(pair? cy)",
+    // procedures that build a result while walking a list: on a circular list they must stop with an error, not grow
+    // until the process dies (the result is dropped, so that rendering it is not what is measured)
+    "(begin (list->vector cy) 'kept)", "(begin (reverse cy) 'kept)", "(begin (append cy '(1)) 'kept)", "(begin (apply + cy) 'kept)"];
 
 pub fn cyclic_worker(expr: &str) -> String {
     let mut im = Impl::new();
